@@ -117,7 +117,20 @@ func run(r *vt.Run, t vt.TB, s spec) {
 	}
 	hl := sqlittle.VerifWrap(d)
 	cols := append([]string{"rowid"}, tb.Spec.ColNames()...)
-	for _, p := range ps {
+	// the same probes three times on the one handle: ascending, descending
+	// (r, then r-1) and in a scrambled order (a lookup must not depend on
+	// the lookups before it)
+	desc := append([]int64{}, ps...)
+	sort.Slice(desc, func(i, j int) bool { return desc[i] > desc[j] })
+	mixed := append([]int64{}, ps...)
+	seed := vt.Hash(s)
+	for i := len(mixed) - 1; i > 0; i-- {
+		seed = seed*6364136223846793005 + 1442695040888963407
+		j := int((seed >> 33) % uint64(i+1))
+		mixed[i], mixed[j] = mixed[j], mixed[i]
+	}
+	order := append(append(append([]int64{}, ps...), desc...), mixed...)
+	for _, p := range order {
 		row, present := want[p]
 		// low level
 		rec, err := tab.Rowid(p)
